@@ -108,6 +108,12 @@ SCRIPTS = [
          {"op": "src"},
          {"op": "resp", "kind": "block", "h": 1, "r": "ok", "ver": 2},
      ]},
+    # an EMPTY block (no transaction, empty state diff: block 4 of this chain) arrives corrupted: must be refetched
+    {"name": "corrupt-empty-block", "seed": 24, "mode": "script", "new_state": True, "init_len": 6, "plan": [],
+     "decisions": [
+         {"op": "sync", "below": 4, "len": 4, "reqs": [4]},
+         {"op": "resp", "kind": "block", "h": 4, "r": "bad", "ver": 1, "corr": "timestamp"},
+     ]},
     {"name": "stale-head-at-tip", "seed": 14, "mode": "script", "new_state": True, "init_len": 6, "plan": [],
      "decisions": [
          {"op": "sync", "below": 6, "len": 6, "reqs": [6]},
@@ -267,7 +273,7 @@ def record_and_validate(ctx, binary, payload, sw, label):
     tracefile = os.path.join(ctx.scratch, "c06-%s.ndjson" % label)
     payload = dict(payload, trace_out=tracefile)
     res = ctx.run_engine(binary, "TestSyncRecord", payload, timeout=1500)
-    traces = res.get("stats", {}).pop("traces", [])
+    traces = res.get("stats", {}).pop("traces", None) or []
     if not traces and not res.get("divergences"):
         raise vlib.Broken("the recorder produced no trace")
     with open(tracefile) as f:
@@ -376,11 +382,18 @@ def run(ctx):
     # ---- 1. the design: repaired must hold; as coded must fail in exactly the known way
     design = not os.environ.get("VERIF_C06_SKIP_DESIGN")      # development aid for mutation runs
     if design:
-        ctx.tlc_check("sync", "MCSync.tla", "Sync_quick.cfg", timeout=900, label="repaired: safety+liveness (chain<=3)")
-        ctx.tlc_check("sync", "MCSync.tla", "Sync_restart.cfg", timeout=900,
-                      label="repaired, one stop/restart of the node: safety+liveness+RestartIsNoOp")
-        r = ctx.tlc_check("sync", "MCSync.tla", "Sync_h13.cfg", timeout=900, expect_violation=True,
-                          label="as coded (H13): RevertsJustified must fail")
+        # the three quick configurations are independent: run them side by side
+        from concurrent.futures import ThreadPoolExecutor
+        with ThreadPoolExecutor(max_workers=3) as pool:
+            f1 = pool.submit(ctx.tlc_check, "sync", "MCSync.tla", "Sync_quick.cfg", timeout=900,
+                             label="repaired: safety+liveness (chain<=3)")
+            f2 = pool.submit(ctx.tlc_check, "sync", "MCSync.tla", "Sync_restart.cfg", timeout=900,
+                             label="repaired, one stop/restart of the node: safety+liveness+RestartIsNoOp")
+            f3 = pool.submit(ctx.tlc_check, "sync", "MCSync.tla", "Sync_h13.cfg", timeout=900, expect_violation=True,
+                             label="as coded (H13): RevertsJustified must fail")
+            f1.result()
+            f2.result()
+            r = f3.result()
         if r["violated"] != "RevertsJustified":
             raise vlib.Broken("the faithful model no longer exhibits H13 (got %s)" % r["violated"])
     if thorough and design:
@@ -391,13 +404,21 @@ def run(ctx):
         expect_temporal(ctx, "Sync_underflow.cfg", "EventuallyConverges",
                         "as coded (remoteHeight-1 underflow): convergence must fail")
         # vacuity: every action is taken.  RevertBreak (revert loop on an empty chain) is defensive code, unreachable
-        # in the repaired design; the Ack / Post / End / Apply steps exist only with Fine = TRUE.
+        # in the repaired design; the Check / Ack / Post / End / Apply steps exist only with Fine = TRUE; stop and
+        # restart of the node only with MaxRestarts > 0 (Sync_restart.cfg).  These runs depend on the specification
+        # only, never on the tree under test, so they cannot turn a violation of the code into exit 2.
         r = ctx.tlc_check("sync", "MCSync.tla", "Sync_live4.cfg", timeout=1800, coverage=True,
                           label="repaired: safety+liveness (chain<=4)")
-        vlib.require_actions_covered(r, ignore=("RevertBreak", "StoreAck", "StorePost", "RevertAck", "RevertEnd", "PollApply"))
+        vlib.require_actions_covered(r, ignore=("RevertBreak", "StoreCheck", "StoreAck", "StorePost", "RevertAck", "RevertEnd",
+                                                "PollApply", "Shutdown", "NodeRestart"))
         r = ctx.tlc_check("sync", "MCSync.tla", "Sync_fine.cfg", timeout=1800, coverage=True,
                           label="repaired, fine-grained steps: safety+liveness")
-        vlib.require_actions_covered(r, ignore=("RevertBreak", "SrcExtend"))   # chain = 3 = MaxLen here
+        vlib.require_actions_covered(r, ignore=("RevertBreak", "SrcExtend", "Shutdown", "NodeRestart"))   # chain = 3 = MaxLen
+        r = ctx.tlc_check("sync", "MCSync.tla", "Sync_restart.cfg", timeout=1800, coverage=True,
+                          label="repaired, one stop/restart (coverage)")
+        zero = [a for a, c in r.get("coverage", {}).items() if a.split(".")[1] in ("Shutdown", "NodeRestart") and c["taken"] == 0]
+        if zero:
+            raise vlib.Broken("vacuity: %s never taken in Sync_restart.cfg" % zero)
         ctx.tlc_check("sync", "MCSync.tla", "Sync_lagw.cfg", timeout=1800, label="repaired, Lag=W as in the code (chain 5): safety")
         ctx.tlc_check("sync", "MCSync.tla", "Sync_faults2.cfg", timeout=1800, label="repaired: safety, chain<=4, 1 source step, 2 faults")
         ctx.tlc_check("sync", "MCSync.tla", "Sync_thorough.cfg", timeout=3000,
